@@ -7,7 +7,7 @@ T == ndJsonDeserialize(IOEnv.TRACE)
 MaxFails == 12
 VARIABLES l, A, C, capb, fails, cnt, drift, exec
 vars == <<l, A, C, capb, fails, cnt, drift, exec>>
-Cnt0 == [steps |-> 0, execs |-> 0, creates |-> 0, rtok |-> 0, rtfull |-> 0, removes |-> 0, loads |-> 0, collisions |-> 0,
+Cnt0 == [steps |-> 0, execs |-> 0, creates |-> 0, rtok |-> 0, rtfull |-> 0, removes |-> 0, loads |-> 0, collisions |-> 0, badidx |-> 0,
          reuse |-> 0, grown |-> 0, readbacks |-> 0, refined |-> 0, drifted |-> 0, maxsize |-> 0]
 Init == l = 1 /\ A = <<>> /\ C = C0 /\ capb = 0 /\ fails = <<>> /\ cnt = Cnt0 /\ drift = <<>> /\ exec = 0
 
@@ -27,8 +27,11 @@ Expect(A0, cap, ev) ==
                                                ELSE IF Len(A0) < cap THEN [a |-> Append(A0, [key |-> ev.key, val |-> BlankVal]), r |-> 0]
                                                ELSE [a |-> A0, r |-> -1]
     [] ev.o = "remove" -> IF AHas(A0, ev.key) THEN [a |-> RemoveAt(A0, AIdx(A0, ev.key)), r |-> 0] ELSE [a |-> A0, r |-> -1]
-    [] ev.o = "setins" -> IF AHas(A0, ev.key) THEN [a |-> [A0 EXCEPT ![AIdx(A0, ev.key)].val = ValSet(@, ev.idx, ev.tok)], r |-> 0]
+    \* instrument API: only the indices 0..127 exist; any other index is refused and NO bank changes (the look-ups, the
+    \* iteration and the read-backs of every bank after the call are judged against the unchanged map)
+    [] ev.o = "setins" -> IF AHas(A0, ev.key) /\ InsIdxOk(ev.idx) THEN [a |-> [A0 EXCEPT ![AIdx(A0, ev.key)].val = ValSet(@, ev.idx, ev.tok)], r |-> 0]
                           ELSE [a |-> A0, r |-> -1]
+    [] ev.o = "getins" -> [a |-> A0, r |-> IF AHas(A0, ev.key) /\ InsIdxOk(ev.idx) THEN 0 ELSE -1]
     [] ev.o = "load"   -> IF ev.bad = 1 THEN [a |-> A0, r |-> -1] ELSE [a |-> LoadKeys(<<>>, ev.keys), r |-> 0]
     [] ev.o = "reserve" -> [a |-> A0, r |-> Max(cap, ev.n)]
     [] OTHER -> [a |-> A0, r |-> 0]
@@ -49,7 +52,8 @@ StepOp(ev) ==
   LET ex == Expect(A, capb, ev)
       A1 == ex.a
       itset == { ev.it[i] : i \in DOMAIN ev.it }
-      f == Lbl(ev.o = "reserve" \/ ev.r = ex.r, "result")
+      badIdx == ev.o \in {"setins", "getins"} /\ AHas(A, ev.key) /\ ~InsIdxOk(ev.idx)
+      f == Lbl(ev.o = "reserve" \/ ev.r = ex.r, IF badIdx THEN "ins-index-accepted" ELSE "result")
            \cup Lbl(ev.o # "reserve" \/ (ev.r >= ev.n /\ ev.r = ev.cap), "reserve")
            \cup Lbl(\A i \in DOMAIN ev.find : (ev.find[i][2] = 1) <=> AHas(A1, ev.find[i][1]), "lookup")
            \cup Lbl(itset = AKeys(A1) /\ Len(ev.it) = Cardinality(itset), "iteration")
@@ -68,6 +72,7 @@ StepOp(ev) ==
            !.rtfull = @ + (IF ev.o = "get" /\ ev.mode = "creatert" /\ ex.r = -1 THEN 1 ELSE 0),
            !.removes = @ + (IF ev.o = "remove" /\ ex.r = 0 THEN 1 ELSE 0),
            !.loads = @ + (IF ev.o = "load" THEN 1 ELSE 0),
+           !.badidx = @ + (IF ev.o \in {"setins", "getins"} /\ AHas(A, ev.key) /\ ~InsIdxOk(ev.idx) THEN 1 ELSE 0),
            !.collisions = @ + (IF \E i, j \in DOMAIN A1 : i # j /\ Hash(A1[i].key) = Hash(A1[j].key) THEN 1 ELSE 0),
            !.reuse = @ + (IF ev.o = "get" /\ ev.mode # "find" /\ ~AHas(A, ev.key) /\ C.free # 0 /\ C.slots[C.free].key = -1 /\ C.nalloc > 0 /\ C.size < Len(C.slots) /\ C.cap = capb THEN 1 ELSE 0),
            !.grown = @ + (IF ev.cap > capb THEN 1 ELSE 0),
